@@ -5,6 +5,7 @@ import (
 	"fmt"
 	"reflect"
 	"strings"
+	"sync"
 	"time"
 
 	"github.com/elastic/go-libaudit/v2/auparse"
@@ -227,6 +228,63 @@ func c05Pairs(c *mon.Ctx) {
 	}
 }
 
+// c05ConcurrentIndependent: sixteen goroutines parse and decode INDEPENDENT messages at the same time (a log
+// shipper with one parser per file). Every record carries values its goroutine alone uses - architecture and
+// syscall numbers, exit codes, socket addresses, hex strings no table knows - so that anything the decoder keeps
+// between calls is written from several goroutines at once. A fatal runtime error (concurrent map writes) ends
+// the child and is reported with the phase name; results are compared with a sequential pass afterwards.
+func c05ConcurrentIndependent(c *mon.Ctx) {
+	const G = 16
+	per := c.Pick(3000, 200000)
+	line := func(g, i int) string {
+		n := g*per + i
+		switch i % 4 {
+		case 0:
+			return fmt.Sprintf("type=SYSCALL msg=audit(1500000000.100:%d): arch=%x syscall=%d success=no exit=-%d a0=%x a1=2 a2=3 a3=4 items=0 ppid=1 pid=2 auid=%d uid=%d gid=0 euid=0 suid=0 fsuid=0 egid=0 sgid=0 fsgid=0 tty=pts0 ses=%d comm=\"c\" exe=\"/bin/x%d\" key=(null)", n, 0x40000000+n, n%5000, 1+n%4000, n, n, n, n, n)
+		case 1:
+			return fmt.Sprintf("type=SECCOMP msg=audit(1500000000.100:%d): auid=%d uid=0 gid=0 ses=1 pid=2 comm=\"c\" exe=\"/bin/y\" sig=%d arch=%x syscall=%d compat=0 ip=0x7f code=0x0", n, n, n%200, 0xc0000000+n, n%3000)
+		case 2:
+			return fmt.Sprintf("type=SOCKADDR msg=audit(1500000000.100:%d): saddr=%04X%04X%08X0000000000000000", n, 2+256*(n%7), n%65536, n)
+		}
+		return fmt.Sprintf("type=EXECVE msg=audit(1500000000.100:%d): argc=2 a0=%X a1=\"%d\"", n, []byte(fmt.Sprintf("arg %d", n)), n)
+	}
+	decode := func(l string) string {
+		m, err := auparse.ParseLogLine(l)
+		if err != nil {
+			return "E:" + err.Error()
+		}
+		d, err := m.Data()
+		t, _ := m.Tags()
+		return fmt.Sprintf("%v|%v|%v", d, err, t)
+	}
+	got := make([][]string, G)
+	var wg sync.WaitGroup
+	start := make(chan struct{})
+	for g := 0; g < G; g++ {
+		got[g] = make([]string, per)
+		wg.Add(1)
+		go func(g int) {
+			defer wg.Done()
+			<-start
+			for i := 0; i < per; i++ {
+				got[g][i] = decode(line(g, i))
+			}
+		}(g)
+	}
+	close(start)
+	wg.Wait()
+	c.Add("evaluations", int64(G*per))
+	c.Add("independent_messages_decoded_concurrently", int64(G*per))
+	for g := 0; g < G; g++ {
+		for i := 0; i < per; i += 7 {
+			if want := decode(line(g, i)); want != got[g][i] {
+				c.Violation("concurrent-decode-differs", fmt.Sprintf("a message decoded while 15 other goroutines decoded other messages gives %s, decoded alone %s; input %q", clipStr(got[g][i], 300), clipStr(want, 300), line(g, i)), &c05Case{Line: true, Text: line(g, i)})
+				return
+			}
+		}
+	}
+}
+
 func copyMap(m map[string]string) map[string]string {
 	if m == nil {
 		return nil
@@ -290,6 +348,7 @@ func init() {
 				}
 			}
 			c05Pairs(c)
+			c05ConcurrentIndependent(c)
 			c.ForEach(n, func(w, i int) {
 				r := c.Rand(1, uint64(i))
 				var line string
